@@ -243,3 +243,45 @@ def pad_round_trip(ctx):
 
 
 LEMMAS = [('C20::pad_round_trip', pad_round_trip)]
+
+
+# ---------------------------------------------------------------------------------------
+# rebin: integer-factor binning = block sums (C20)
+
+def rebin_model(ctx, env):
+    """out[.., i, j] = sum_{a < f} sum_{b < f} img[.., i f + a, j f + b] on (n // f, m // f) blocks."""
+    img, f = A.as_array(ctx, env['img']), env['factor']
+    snap = img.snapshot()
+    n, m = img.shape[-2], img.shape[-1]
+    # numpy's reshape refuses an axis that is not a whole number of blocks
+    if ctx.branch(z3.Or(S.z(S.ne(S.mod(n, f), 0)), S.z(S.ne(S.mod(m, f), 0)))):
+        raise Raised('ValueError', 'cannot reshape array')
+
+    def fn(idx):
+        i, j = idx[-2], idx[-1]
+        pre = tuple(idx[:-2])
+        return S.sigma(0, f, lambda a: S.sigma(0, f, lambda b: snap.at(pre + (S.add(S.mul(i, f), a), S.add(S.mul(j, f), b)))))
+    shape = tuple(img.shape[:-2]) + (S.floordiv(n, f), S.floordiv(m, f))
+    return Arr.from_fn(shape, img.dtype, fn)
+
+
+def _rebin_contract(tag, depth):
+    c = contract('lentil.util.rebin#%s' % tag, level='I')
+    c.qualname = 'lentil.util.rebin'
+    c.tag = tag
+
+    def params(ctx):
+        f = ctx.fresh_int('factor')
+        ctx.assume(f >= 1)
+        n, m = shape2(ctx, 'img')
+        shape = (n, m) if depth is None else (depth, n, m)
+        return {'img': array(ctx, 'img', shape, 'float'), 'factor': f}
+    c.params = params
+    c.model = rebin_model
+    c.modifies = set()
+    return c
+
+
+_rebin_contract('2-D', None)
+_rebin_contract('cube-of-2', 2)
+REBIN = ['lentil.util.rebin#2-D']      # the cube variant has one slow (unstable) index-arithmetic query: left to the bounded stand-in
